@@ -365,7 +365,7 @@ pub(crate) struct CcBox<T: ?Sized + Trace + 'static> {
 
 impl<T: Trace> CcBox<T> {
     #[must_use]
-    fn new(t: T, state: &State) -> NonNull<CcBox<T>> {
+    pub(crate) fn new(t: T, state: &State) -> NonNull<CcBox<T>> {
         let layout = Layout::new::<CcBox<T>>();
 
         #[cfg(feature = "finalization")]
